@@ -116,6 +116,39 @@ def analyse(mod, run, label, names=None):
                       Finding("B2-dispatch-not-exhaustive", fn.name, "if-chain", ",".join(missing),
                               "%s modifies the bitmap and tests its container type only against %s (at %s): %s is not handled, so the container and the bookkeeping (cardinality) can disagree for that type" % (
                                   fn.name, sorted(vals), loc(first), ", ".join(missing)), loc=loc(first)))
+    # ---- B4: single-element mutators change the cardinality by one only on an edge that depends on a membership result for that element ----
+    nb4 = 0
+    for fname in ("varintBitmapAdd", "varintBitmapRemove"):
+        fn = mod.fn(fname)
+        if fn is None: continue                                    # the control module has no such function
+        vk = fn.param_index("value"); fi4 = w.fi(fn).prepare(); fn.dom()
+        if vk is None: raise AnalysisBroken("%s: parameter 'value' not found" % fname)
+        def from_value(o, d=0):
+            if o["k"] == "arg": return o["v"] == vk
+            if o["k"] != "inst" or d > 6: return False
+            x = fn.imap[o["v"]]
+            return x.op in ("zext", "sext", "trunc", "add", "sub", "and", "lshr", "udiv", "urem", "shl") and any(from_value(y, d + 1) for y in x.ops)
+        probes = {c.id for c in fn.calls() if not (c.get("callee") or "").startswith("llvm.") and any(from_value(c.ops[n]) for n in range(c["nargs"]))}
+        def from_probe(o, d=0):
+            if o["k"] != "inst" or d > 6: return False
+            if o["v"] in probes: return True
+            x = fn.imap[o["v"]]
+            return x.op in ("zext", "sext", "trunc", "icmp", "xor", "and", "or") and any(from_probe(y, d + 1) for y in x.ops)
+        tests = [b for b in fn.blocks if b.term.op == "br" and len(b.term.ops) == 3 and from_probe(b.term.ops[0])]
+        for st in fn.insts():
+            if st.op != "store" or st["size"] != 4: continue
+            root, off = fi4.ptr(st.ops[1])
+            if root != ("arg", 0) or not off.is_const(): continue
+            v = st.ops[0]
+            x = fn.imap[v["v"]] if v["k"] == "inst" else None
+            if x is None or x.op not in ("add", "sub") or x.ops[1]["k"] != "int" or abs(int(x.ops[1]["sv"])) != 1: continue
+            ld = fn.imap[x.ops[0]["v"]] if x.ops[0]["k"] == "inst" else None
+            if ld is None or ld.op != "load" or fi4.ptr(ld.ops[0]) != (root, off): continue
+            nb4 += 1
+            dominated = any(any(sx.id != st.block.id and fn.dominates(sx.id, st.block.id) and [p.id for p in sx.preds] == [tb.id] or (sx.id == st.block.id and [p.id for p in sx.preds] == [tb.id]) for sx in tb.succs) for tb in tests)
+            run.check(dominated, "B4-count-changes-only-after-a-membership-result", {"fn": fname, "at": loc(st)},
+                      Finding("B4-count-changed-without-membership-result", fname, "cardinality", "store",
+                              "%s changes the cardinality by one at %s on a path that has not branched on a membership result for 'value' (search / test-and-set): adding a present element or removing an absent one is counted" % (fname, loc(st)), loc=loc(st)))
     # ---- B3 ----
     nfree = 0
     for fn in sorted(mod.defined(), key=lambda f: f.name):
@@ -126,7 +159,7 @@ def analyse(mod, run, label, names=None):
             run.check(ok, "B3-container-read-before-free", {"fn": fn.name, "at": loc(fr), "read_before": has},
                       Finding("B3-live-container-discarded", fn.name, "param%d+%d" % (L[0][1], L[1]), "free",
                               "the live container is freed at %s without its contents having been read and without a dominating emptiness test: existing elements are discarded" % loc(fr), loc=loc(fr)))
-    return nb1, nsw, nfree
+    return nb1, nsw, nfree, nb4
 
 
 def controls(run):
@@ -149,8 +182,9 @@ def run(tier):
         mod = lib_module(cfg)
         for a in BINARY + READERS + ["varintBitmapIteratorNext", "varintBitmapAdd", "varintBitmapRemove", "varintBitmapAddRange"]: need_fn(mod, a)
         if ENUM not in mod.enums: raise AnalysisBroken("enum %s not found in debug info" % ENUM)
-        nb1, nsw, nfree = analyse(mod, run, cfg)
-        per[cfg] = {"const_bitmap_params": nb1, "type_switches": nsw, "container_frees_in_mutators": nfree}
+        nb1, nsw, nfree, nb4 = analyse(mod, run, cfg)
+        per[cfg] = {"const_bitmap_params": nb1, "type_switches": nsw, "container_frees_in_mutators": nfree, "single_element_count_updates": nb4}
+        run.floor("cardinality +-1 updates in Add / Remove (%s)" % cfg, nb4, 5)
         run.floor("const bitmap parameters + iterators (%s)" % cfg, nb1, 15)
         run.floor("switches on the container type (%s)" % cfg, nsw, 9)
         run.floor("container frees outside the destructor (%s)" % cfg, nfree, 7)
@@ -158,7 +192,8 @@ def run(tier):
     run.coverage.update({"configurations": per,
                          "not_decided": "equality with a mathematical set under operation histories, truthful change reports, iterator order, cardinality bookkeeping"})
     return run.finish(
-        "Three necessary structural conditions of the set behaviour: (B1) no store reaches memory rooted at a const bitmap operand, at any "
+        "Four necessary structural conditions of the set behaviour: (B1) no store reaches memory rooted at a const bitmap operand, at any "
         "depth, including through the local iterator that captures it; (B2) every switch on the container type has a case for each of the "
         "three enumerators; (B3) a mutator that frees the current container has read its contents (a conversion) or is dominated by a test "
-        "that the set is empty. They do not decide the set semantics itself.")
+        "that the set is empty; (B4) varintBitmapAdd / Remove change the cardinality by one only on an edge controlled by a membership result for the "
+        "element (search, test-and-set, test-and-clear). They do not decide the set semantics itself.")
